@@ -410,6 +410,21 @@ func main() {
 			}
 		}
 	}
+	if len(g.deny) == 0 {
+		g.deny = []string{"read_parquet", "parquet_scan", "parquet_metadata", "parquet_schema", "parquet_file_metadata", "parquet_kv_metadata", "parquet_bloom_probe",
+			"read_csv", "read_csv_auto", "sniff_csv", "read_json", "read_json_auto", "read_json_objects", "read_json_objects_auto", "read_ndjson", "read_ndjson_auto",
+			"read_ndjson_objects", "read_text", "read_blob", "read_xlsx", "glob", "delta_scan", "iceberg_scan", "iceberg_metadata", "iceberg_snapshots", "arc_partition_agg"}
+	}
+	if rows, err := e.raw.Query("SELECT DISTINCT function_name FROM duckdb_functions() WHERE function_type IN ('table', 'table_macro') AND function_name SIMILAR TO '[a-z_][a-z0-9_]*' ORDER BY 1"); err == nil {
+		for rows.Next() {
+			var fn string
+			if rows.Scan(&fn) == nil {
+				g.tableFuncs = append(g.tableFuncs, fn)
+			}
+		}
+		rows.Close()
+	}
+	c.Extra["duckdb_table_functions"] = len(g.tableFuncs)
 	r := &run{c: c, e: e, g: g}
 	t0 := time.Now()
 	if c.Replay != "" {
